@@ -23,7 +23,7 @@ Path = Tuple[str, Tuple[str, ...]]
 WRAPPERS = {
     "dict", "list", "tuple", "bool", "int", "float", "str", "sorted", "set", "frozenset", "max", "min", "abs", "round",
     "_ensure_dict", "_as_dict", "_to_plain", "_truthy", "deepcopy", "copy.deepcopy", "copy.copy", "_coerce_int",
-    "_coerce_float", "_coerce_bool", "_to_attrdict", "vars", "len", "stable_key", "_stable_key", "freeze", "_quality_digest",
+    "_coerce_float", "_coerce_bool", "_to_attrdict", "vars", "len", "stable_key", "_stable_key", "freeze", "_quality_digest", "type", "id", "repr",
 }
 PATH_GETTERS = {"_cfg_get", "cfg_get"}
 
@@ -79,6 +79,9 @@ class PathEval:
         sl = rd.slice(exprs, at, control=control)
         for ex, n in sl.exprs:
             funcs = {id(x.func) for x in walk_no_defs(ex) if isinstance(x, ast.Call)}
+            # comprehension variables ranging over a constant tuple of keys:  f(cfg.get(k)) for k in ("a", "b")
+            self._cbound = {g.target.id: [const_str(y) for y in g.iter.elts] for x in walk_no_defs(ex) if isinstance(x, ast.comprehension) for g in [x]
+                            if isinstance(g.target, ast.Name) and isinstance(g.iter, (ast.Tuple, ast.List)) and g.iter.elts and all(const_str(y) is not None for y in g.iter.elts)}
             for x in walk_no_defs(ex):
                 if id(x) in funcs and isinstance(x, ast.Attribute):
                     continue
@@ -142,6 +145,8 @@ class PathEval:
         s = const_str(e)
         if s is not None:
             return [s]
+        if isinstance(e, ast.Name) and e.id in getattr(self, "_cbound", {}):
+            return list(self._cbound[e.id])  # comprehension variable over a constant tuple of keys
         if isinstance(e, ast.Name):
             rd = self.ctx.rd(fn)
             out = []
@@ -194,16 +199,21 @@ class PathEval:
             return self._call(fn, e, at, depth, bound)
         if isinstance(e, (ast.ListComp, ast.SetComp, ast.GeneratorExp, ast.DictComp)):
             b = dict(bound)
+            saved = dict(getattr(self, "_cbound", {}))
+            self._cbound = dict(saved)
             for g in e.generators:
                 it = self._eval(fn, g.iter, at, depth, b)
                 el = frozenset((r, k + ("*",)) for r, k in it)
                 for t in ast.walk(g.target):
                     if isinstance(t, ast.Name):
                         b[t.id] = el
+                if isinstance(g.target, ast.Name) and isinstance(g.iter, (ast.Tuple, ast.List)) and g.iter.elts and all(const_str(x) is not None for x in g.iter.elts):
+                    self._cbound[g.target.id] = [const_str(x) for x in g.iter.elts]
             elts = [e.value] if isinstance(e, ast.DictComp) else [e.elt]
             out = set()
             for x in elts:
                 out |= self._eval(fn, x, at, depth, b)
+            self._cbound = saved
             return out
         if isinstance(e, ast.Dict):
             out = set()
